@@ -293,12 +293,14 @@ pub fn bv_bits(bv: &Bitvector) -> u32 {
     bv.width().to_usize() as u32
 }
 
-/// Low 64 bits of a bitvector of width <= 64 (zero extended).
-pub fn bv_u64(bv: &Bitvector) -> u64 {
-    match bv_bits(bv) {
+/// Low `bits` bits of a bitvector whose width is known (by the caller) to be `bits`.
+/// `bits` must be a concrete value: dispatching on the run-time width would make CBMC explore apint's
+/// heap-storage paths whenever the width is not constant-propagated (see DESIGN.md, width blow-up).
+pub fn bv_val(bv: &Bitvector, bits: u32) -> u64 {
+    match bits {
         8 => bv.resize_to_u8() as u64,
         16 => bv.resize_to_u16() as u64,
         32 => bv.resize_to_u32() as u64,
-        _ => bv.resize_to_u64(),
+        _ => bv.resize_to_u64() & mask(bits),
     }
 }
